@@ -158,6 +158,9 @@ func NewChunkStorage[T Tx](
 		verifier:           verifier,
 		ruleFactory:        ruleFactory,
 	}
+	// the verifier judges chunk expiries against the minimum: it has to resume
+	// from the persisted value, not from zero
+	verifier.SetMin(minSlot)
 	return storage, storage.init()
 }
 
